@@ -373,10 +373,20 @@ class Run(object):
             x = M.as_operator(before.dense, d).copy()
             if a.get("order") == "F":
                 x = np.asfortranarray(x)
-            call = lambda: self.ttm.TT(x, threshold=thr, max_rank=_mr(mr))
+            ckw = {}
+            if thr != 0:
+                ckw["threshold"] = thr
+            if mr is not None:
+                ckw["max_rank"] = _mr(mr)
+            call = lambda: self.ttm.TT(x, **ckw)
         else:
             cores = [np.array(c, copy=True) for c in self.t.cores]
-            call = lambda: self.ttm.TT(cores, threshold=thr, max_rank=_mr(mr))
+            ckw = {}
+            if thr != 0:
+                ckw["threshold"] = thr
+            if mr is not None:
+                ckw["max_rank"] = _mr(mr)
+            call = lambda: self.ttm.TT(cores, **ckw)
         out, exc = self._call(rec, call)
         if exc is not None:
             if self._legal_raise(exc, rec):
@@ -437,7 +447,14 @@ class Run(object):
         if thr != 0 and self._numerically_zero():
             return "skip"
         arg = np.asfortranarray(A.copy()) if a.get("order") == "F" else A.copy()
-        out, exc = self._call(rec, lambda: self.utl.truncated_svd(arg, threshold=thr, max_rank=_mr(mr), rel_truncation=rel))
+        kw = {}
+        if thr != 0:
+            kw["threshold"] = thr
+        if mr is not None:
+            kw["max_rank"] = _mr(mr)
+        if rel is not True:
+            kw["rel_truncation"] = rel
+        out, exc = self._call(rec, lambda: self.utl.truncated_svd(arg, **kw))
         if exc is not None:
             if self._legal_raise(exc, rec):
                 self.raised_ok += 1
@@ -522,8 +539,17 @@ class Run(object):
         before = self.snap
         t = self.t
         d = t.order
-        out, exc = self._call(rec, lambda: t.svd(idx, threshold=thr, max_rank=_mr(mr), ortho_l=a.get("ortho_l", True),
-                                                 ortho_r=a.get("ortho_r", True), overwrite=ow))
+        kw = {}   # only what the record specifies: the library's default values are code under test
+        if thr != 0:
+            kw["threshold"] = thr
+        if mr is not None:
+            kw["max_rank"] = _mr(mr)
+        for k_ in ("ortho_l", "ortho_r"):
+            if a.get(k_) is False:
+                kw[k_] = False
+        if ow:
+            kw["overwrite"] = True
+        out, exc = self._call(rec, lambda: t.svd(idx, **kw))
         if exc is not None:
             if self._legal_raise(exc, rec):
                 self.raised_ok += 1
@@ -603,8 +629,15 @@ class Run(object):
             if not len(kept) or kept[-1] < 1e-4:
                 return "skip"
         t = self.t
-        out, exc = self._call(rec, lambda: t.pinv(idx, threshold=thr, ortho_l=a.get("ortho_l", True),
-                                                  ortho_r=a.get("ortho_r", True), overwrite=ow))
+        kw = {}
+        if thr != 0:
+            kw["threshold"] = thr
+        for k_ in ("ortho_l", "ortho_r"):
+            if a.get(k_) is False:
+                kw[k_] = False
+        if ow:
+            kw["overwrite"] = True
+        out, exc = self._call(rec, lambda: t.pinv(idx, **kw))
         if exc is not None:
             if self._legal_raise(exc, rec):
                 self.raised_ok += 1
